@@ -203,7 +203,7 @@ class Ex:
             if f == "len" and len(n.args) == 1:
                 v = self.expr(n.args[0])
                 if v[0] == "ZL":
-                    return Zv("(Z.of_nat (length %s))" % v[1])
+                    return Zv("(Z.of_nat (List.length %s))" % v[1])
                 if v[0] == "T":
                     return Zv(str(len(v[1])))
             if f == "range" and not n.keywords and 1 <= len(n.args) <= 3:
@@ -961,12 +961,107 @@ def pin_tree(repo):
         fail("TTNS.update_2site tensor stores: %r" % stores, f)
 
 
+# ----------------------------------------------------------------------------- eigen-solver dispatch
+# Which eigenpair does every solver branch ask for?  algo string -> routine and its selection argument:
+#   davidson(...)                 the package's Davidson: eigh of the subspace matrix, `e = w[:nroots]` unless a `pick` is passed
+#   primme.eigsh / scipy...eigsh  which = <literal>
+#   scipy.linalg.eigh / np.linalg.eigh followed by  e = w[0] / w[:nroots], c = v[:, 0] / v[:, iroot]   index 0 of the ascending spectrum
+def _branches(ifnode, var):
+    out = []
+    cur = ifnode
+    while True:
+        t = cur.test
+        if not (isinstance(t, ast.Compare) and len(t.ops) == 1 and isinstance(t.ops[0], ast.Eq) and ast.unparse(t.left) == var
+                and isinstance(t.comparators[0], ast.Constant) and isinstance(t.comparators[0].value, str)):
+            fail("solver dispatch test %s" % ast.unparse(t), cur)
+        out.append((t.comparators[0].value, cur.body))
+        if len(cur.orelse) == 1 and isinstance(cur.orelse[0], ast.If):
+            cur = cur.orelse[0]
+            continue
+        if [ast.unparse(x) for x in cur.orelse] != ["assert False"]:
+            fail("solver dispatch must end with `else: assert False`", cur)
+        return out
+
+
+def _selector(body, what):
+    calls = [c for st in body for c in ast.walk(st) if isinstance(c, ast.Call)]
+    names = [ast.unparse(c.func) for c in calls]
+    dav = [c for c in calls if ast.unparse(c.func) == "davidson"]
+    eigsh = [c for c in calls if ast.unparse(c.func) in ("primme.eigsh", "scipy.sparse.linalg.eigsh")]
+    eigh = [c for c in calls if ast.unparse(c.func) in ("np.linalg.eigh", "scipy.linalg.eigh")]
+    if len(dav) + len(eigsh) + len(eigh) != 1:
+        fail("%s: expected exactly one eigen-solver call, got %s" % (what, names))
+    if dav:
+        kws = {k.arg for k in dav[0].keywords}
+        if "pick" in kws or len(dav[0].args) > 3:
+            fail("%s: davidson called with a `pick` / extra positional arguments" % what, dav[0])
+        return "SelDavidson"
+    if eigsh:
+        kw = {k.arg: k.value for k in eigsh[0].keywords}
+        if "which" not in kw or not (isinstance(kw["which"], ast.Constant) and isinstance(kw["which"].value, str)):
+            fail("%s: eigsh without a literal which=" % what, eigsh[0])
+        if "sigma" in kw:
+            fail("%s: eigsh in shift-invert mode" % what, eigsh[0])
+        return 'SelWhich "%s"%%string' % kw["which"].value
+    # dense eigh: the results must be taken from index 0 on
+    tg = [ast.unparse(t) for st in body for n in ast.walk(st) if isinstance(n, ast.Assign) for t in n.targets if ast.unparse(n.value) == ast.unparse(eigh[0])]
+    if len(tg) != 1 or "," not in tg[0]:
+        fail("%s: eigh result not unpacked into (values, vectors)" % what, eigh[0])
+    wn, vn = [x.strip() for x in tg[0].strip("()").split(",")]
+    idx = set()
+    for st in body:
+        for n in ast.walk(st):
+            if isinstance(n, ast.Subscript) and isinstance(n.value, ast.Name) and n.value.id in (wn, vn) and isinstance(n.ctx, ast.Load):
+                t = ast.unparse(n.slice)
+                ok = {wn: {"0": 0, ":nroots": 0}, vn: {"(:, 0)": 0, ":, 0": 0, "(:, iroot)": 0, ":, iroot": 0}}[n.value.id]
+                if t not in ok:
+                    fail("%s: eigen-pair taken from %s[%s]" % (what, n.value.id, t), n)
+                idx.add(ok[t])
+    if idx != {0}:
+        fail("%s: eigh results not used" % what)
+    return "SelEighIndex 0%nat"
+
+
+def tx_solvers(repo):
+    tgs = ast.parse(open(repo + "/renormalizer/tn/gs.py").read())
+    f = find_func(tgs, "eigh_iterative")
+    ifs = [st for st in strip_doc(f.body) if isinstance(st, ast.If) and "algo ==" in ast.unparse(st.test)]
+    if len(ifs) != 1:
+        fail("tn.gs.eigh_iterative dispatch", f)
+    tree = [(a, _selector(b, "tn.gs.eigh_iterative[%s]" % a)) for a, b in _branches(ifs[0], "algo")]
+    cgs = ast.parse(open(repo + "/renormalizer/mps/gs.py").read())
+    f = find_func(cgs, "eigh_iterative")
+    ifs = [st for st in strip_doc(f.body) if isinstance(st, ast.If) and "algo ==" in ast.unparse(st.test)]
+    if len(ifs) != 1:
+        fail("mps.gs.eigh_iterative dispatch", f)
+    chain = [(a, _selector(b, "mps.gs.eigh_iterative[%s]" % a)) for a, b in _branches(ifs[0], "algo")]
+    f = find_func(cgs, "eigh_direct")
+    direct = _selector(strip_doc(f.body), "mps.gs.eigh_direct")
+    # iter_idx for the state-averaged list comprehension: iroot ranges from 0
+    lcs = [n for n in ast.walk(f) if isinstance(n, ast.ListComp)]
+    for lc in lcs:
+        if "iroot" in ast.unparse(lc) and not ast.unparse(lc.generators[0].iter).startswith("range(min(nroots"):
+            fail("mps.gs.eigh_direct: roots not taken from index 0", lc)
+    # the package's Davidson: lowest Ritz values unless `pick` is given
+    dv = ast.parse(open(repo + "/renormalizer/lib/davidson/davidson.py").read())
+    d1 = find_func(dv, "davidson1")
+    txt = [ast.unparse(st) for st in ast.walk(d1) if isinstance(st, ast.Assign)]
+    if "(w, v) = scipy.linalg.eigh(heff[:space, :space])" not in txt and "w, v = scipy.linalg.eigh(heff[:space, :space])" not in txt:
+        fail("davidson1: subspace diagonalisation changed", d1)
+    if "e = w[:nroots]" not in txt:
+        fail("davidson1: Ritz values are not the lowest nroots", d1)
+    defaults = dict(zip([a.arg for a in d1.args.args][-len(d1.args.defaults):], d1.args.defaults))
+    if ast.unparse(defaults.get("pick")) != "None":
+        fail("davidson1: default `pick` is not None", d1)
+    return tree, chain, direct
+
+
 # ----------------------------------------------------------------------------- rendering
 def render(d):
     o = []
     a = o.append
     a("(* GENERATED by tx/sweepsched.py from renormalizer/mps/{gs,mp,lib}.py -- do not edit *)")
-    a("From Coq Require Import ZArith List Bool.")
+    a("From Coq Require Import ZArith List Bool String.")
     a("Import ListNotations.")
     a("Local Open Scope Z_scope.")
     a("Local Open Scope bool_scope.")
@@ -1010,6 +1105,14 @@ def render(d):
     a("(* gs.py optimize_mps: a left-canonical input is made right-canonical and the \"R\" environments are built, else \"L\" *)")
     a("Definition init_env_isL (input_left_canonical : bool) : bool := %s." % d["init"])
     a("")
+    a("(* eigen-solver dispatch: which eigenpair every branch asks for (tn/gs.py eigh_iterative, mps/gs.py eigh_iterative / eigh_direct).")
+    a("   SelDavidson: the package's Davidson with its default selection (lowest Ritz values: `e = w[:nroots]` after an ascending eigh, no `pick`);")
+    a("   SelWhich w: ARPACK / PRIMME eigsh(which = w);  SelEighIndex i: dense eigh (ascending), eigenpairs taken from index i on *)")
+    a("Inductive selector := SelDavidson | SelWhich (w : String.string) | SelEighIndex (i : nat).")
+    a("Definition tree_solvers : list (String.string * selector) := [%s]." % "; ".join('("%s"%%string, %s)' % x for x in d["solvers"][0]))
+    a("Definition chain_iter_solvers : list (String.string * selector) := [%s]." % "; ".join('("%s"%%string, %s)' % x for x in d["solvers"][1]))
+    a("Definition chain_direct_solver : selector := %s." % d["solvers"][2])
+    a("")
     a("(* mp.py MatrixProduct._update_mps, step 2: site tensors stored (in order) and the new qnidx *)")
     a("Definition upd_writes (to_right : bool) (n : Z) (cidx : list Z) : list Z := %s." % d["upd"][0])
     a("Definition upd_qnidx (to_right : bool) (n qnidx : Z) (cidx : list Z) : Z := %s." % d["upd"][1])
@@ -1034,6 +1137,7 @@ def main(repo="/repo"):
     d["sweep"] = tx_single_sweep(gs)
     d["init"] = tx_optimize_mps(gs)
     pin_tree(repo)
+    d["solvers"] = tx_solvers(repo)
     # Mps.__setitem__ must delegate to MatrixProduct.__setitem__ (the event hook sits there)
     mpsmod = ast.parse(open(base + "mps.py").read())
     si = find_func(find_class(mpsmod, "Mps"), "__setitem__")
